@@ -50,12 +50,22 @@ thread_local! {
     // const-initialised, no destructor: safe to touch from inside the allocator
     static LIVE_ALLOCS: Cell<i64> = const { Cell::new(0) };
     static LIVE_BYTES: Cell<i64> = const { Cell::new(0) };
+    // everything the thread ever asked for (never decreases): the cost probe of C01
+    static TOTAL_BYTES: Cell<u64> = const { Cell::new(0) };
 }
 
 #[inline]
 fn account(allocs: i64, bytes: i64) {
     let _ = LIVE_ALLOCS.try_with(|c| c.set(c.get() + allocs));
     let _ = LIVE_BYTES.try_with(|c| c.set(c.get() + bytes));
+    if bytes > 0 {
+        let _ = TOTAL_BYTES.try_with(|c| c.set(c.get().wrapping_add(bytes as u64)));
+    }
+}
+
+/// Bytes the calling thread has requested from the allocator so far (cumulative).
+pub fn total_allocated() -> u64 {
+    TOTAL_BYTES.with(|c| c.get())
 }
 
 /// (live allocations, live bytes) made by the calling thread and not yet freed by it.
